@@ -80,6 +80,7 @@ func runC08(r *Run) {
 		eff = -1 // NetConn disables the limit
 	}
 	type planned struct {
+		bfinal  bool
 		size    int
 		over    bool
 		data    []byte
@@ -145,7 +146,10 @@ func runC08(r *Run) {
 		if special == 1 && rc.PeerTake {
 			p.comp = false // the bomb is compressed without history: it must be the first compressed message
 		}
-		fs := MessageFrames(MsgSpec{Typ: typ, Data: p.data, Compress: p.comp, Frags: SplitFrags(t, p.size)}, comp)
+		// some senders end a compressed message with a BFINAL=1 block (RFC 7692 7.2.3.4)
+		bfinal := p.comp && t.Pct(25)
+		fs := MessageFrames(MsgSpec{Typ: typ, Data: p.data, Compress: p.comp, BFinal: bfinal, Frags: SplitFrags(t, p.size)}, comp)
+		p.bfinal = bfinal
 		stream = append(stream, peer.Encode(fs...)...)
 		if !p.over && i < nMsgs-1 && api != 3 && t.Pct(30) {
 			p.newLim = []int64{0, 100, 5000, 70000, -1}[t.Draw(5)]
@@ -194,7 +198,7 @@ func runC08(r *Run) {
 	r.D("limit", lim)
 	var pd []string
 	for _, p := range plan {
-		pd = append(pd, fmt.Sprintf("size=%d over=%v comp=%v special=%d newlim=%d", p.size, p.over, p.comp, p.special, p.newLim))
+		pd = append(pd, fmt.Sprintf("size=%d over=%v comp=%v bfinal=%v special=%d newlim=%d", p.size, p.over, p.comp, p.bfinal, p.special, p.newLim))
 	}
 	r.D("plan", pd)
 	r.Nontrivial = true
@@ -316,6 +320,9 @@ func runC08(r *Run) {
 			allowance += int64(p.size)
 		}
 		s2 := fmt.Sprintf("%s,over=%v", sig, over)
+		if p.bfinal {
+			s2 += ",bfinal"
+		}
 		if !over {
 			if !rs.complete {
 				r.Violate("within-limit-not-delivered", s2, "message %d of %d bytes (limit %d) was not delivered: %v", i, p.size, curLim, rs.err)
